@@ -98,3 +98,20 @@ Definition prune (d : doc) : option doc := prune_fuel (S (List.length (d_comps d
 
 (** Names of the components of a document, for comparison with the implementation. *)
 Definition comp_keys (d : doc) : list string := map comp_ref (d_comps d).
+
+(** * A loop that gives up after a fixed number of rounds.
+    [prune_bounded b] runs at most [b] rounds of the loop (a round that removes nothing changes nothing, so running the
+    remaining rounds anyway is the same as leaving the loop). *)
+Fixpoint prune_bounded (b : nat) (d : doc) : doc :=
+  match b with O => d | S b' => prune_bounded b' (prune_step d) end.
+
+(** Chains: component number j is referred to by component number j-1 only; nothing refers to the first one. *)
+Fixpoint unary (n : nat) : string := match n with O => EmptyString | S k => ("x" ++ unary k)%string end.
+Definition chain_ref (j : nat) : string := ("#/components/schemas/N" ++ unary j)%string.
+Fixpoint chain_comps (i n : nat) : list component :=
+  match n with
+  | O => []
+  | S k => {| c_kind := KSchemas; c_name := ("N" ++ unary i)%string;
+              c_body := NVal (match k with O => [] | S _ => [NRef (chain_ref (S i))] end) |} :: chain_comps (S i) k
+  end.
+Definition chain_doc (i n : nat) : doc := {| d_paths := []; d_comps := chain_comps i n |}.
